@@ -13,13 +13,15 @@
   Scope = the decidable side conditions `allAssumed` (see `Galaxy.Plugin.assumed`), all of them the property's own:
     (a) namespace, pod and owner names are non-empty and a bind request carries the pod UID (`args.PodUID`);
     (b) a reload keeps the addresses of live bound pods configured ("no configuration reload that still contains the
-        IP").  The theorems additionally cover one failing apiserver / provider call per move, which the property's
-        quantifier (schedules, histories) does not ask for; in that extra dimension ONE fault position is excluded:
-        a failing store delete inside ConfigurePool (its error is ignored by the code, the stale object is resurrected
-        by a later reload that re-adds the address: corpus/C04/reload-delete-fault.ops, known finding).
+        IP").
+  Beyond the property's quantifier (schedules, histories) the theorems also cover one failing apiserver call and one
+  failing provider call per move, at ANY position (a failing store delete inside ConfigurePool leaves an orphan object
+  that a later reload may resurrect - `State.orphans`; harmless since resync / Release check the whole key).
   The former side condition "the lister shows the API server's incarnation and no record of another incarnation is
-  under the key" is gone: Bind now checks both itself (facts bindChecksListerUID, bindUidGuardCoversWholeKey); the
-  two `_counter` theorems at the end show the statement false for the pre-fix variants of the code.
+  under the key" is gone: Bind now checks both itself (facts bindChecksListerUID, bindUidGuardCoversWholeKey), and
+  resync / Release leave a key alone while another record of it belongs to a running pod (fact
+  resyncAndReleaseCheckWholeKey).  The `_counter` theorems at the end show the statement false for the pre-fix variants
+  of the code (all three defects were found by this check and are fixed in /repo).
 -/
 import Galaxy.Lemmas.PluginMain
 
@@ -29,6 +31,7 @@ open Galaxy Galaxy.Plugin
 /-- The structural facts regenerated from /repo on this run are the shape the proofs are about: unbind ignores an
     event whose pod UID differs from a stored non-empty UID before any mutation; allocateIP refuses another
     incarnation's IP looking at ALL records of the key; Bind refuses a lister pod whose UID differs from args.PodUID;
+    resync and Release leave a key alone while another record of it belongs to a running pod;
     Release and the resync closure re-read ByIP under lockPod and compare keys; podRunning asks
     the lister and then the API server and compares UIDs.  (`facts` is what `gxdrv_plugin` runs with.) -/
 theorem fact_plugin_shape : Galaxy.Plugin.facts = Facts.good := by decide
@@ -46,7 +49,7 @@ theorem fact_unbind_retry_limit : Generated.Plugin.unbindMaxRetries = 3 := by de
 /-- "While a pod that was bound by galaxy-ipam still exists and has not finished, its IP stays assigned to it":
     after EVERY finite history of moves (any admissible or inadmissible choices, any fault indices) within the
     property's scope (`allAssumed`: non-empty names, bind requests carry the pod UID, reloads keep live pods' addresses
-    configured and their fault is not a ConfigurePool delete), every live bound pod owns each address of its binding annotation - in memory and in the store,
+    configured), every live bound pod owns each address of its binding annotation - in memory and in the store,
     under its own key and its own UID.  Covers all 17 moves. -/
 theorem live_bound_pod_keeps_ip (c : Conf) (ms : List Move) (hok : allAssumed facts (init c) ms = true) :
     ∀ q, LiveBound (run facts (init c) ms).pods q → ∀ hd, hd ∈ q.handed → OwnedBy (run facts (init c) ms) q hd.ip := by
@@ -126,8 +129,9 @@ theorem live_bound_pod_keeps_ip_counter :
 /-- the plugin before "fix: bind stored a stale pod uid ...": Bind does not compare the lister's pod with args.PodUID -/
 def factsNoListerCheck : Facts := { Facts.good with bindChecksListerUID := false }
 
-/-- ... and its "waiting for delete event" check only sees the records inside the requested ranges -/
-def factsNarrowGuard : Facts := { Facts.good with bindUidGuardCoversWholeKey := false }
+/-- ... its "waiting for delete event" check only sees the records inside the requested ranges, and resync / Release
+    act on the whole key without looking at its other records (the code before both later fixes) -/
+def factsNarrowGuard : Facts := { Facts.good with bindUidGuardCoversWholeKey := false, wholeKeyCheck := false }
 
 /-- bind (with the API server's UID, as the scheduler does) while the lister still shows the previous incarnation;
     then the late delete event -/
@@ -192,5 +196,49 @@ theorem stale_record_counter :
       LiveBound (run factsNarrowGuard (init conf2) staleRecord).pods podA2' ∧
       Tbl.get (run factsNarrowGuard (init conf2) staleRecord).alloc 168427523 = none := by
   refine ⟨by decide, ⟨by decide, by decide, by decide⟩, by decide⟩
+
+/-- the plugin before "fix: resync and release freed a running pod's ip together with a stale ip of the same key" -/
+def factsPerKey : Facts := { Facts.good with wholeKeyCheck := false }
+
+def pool3 : Pool := { nodeSubnets := [⟨168362240, 24⟩], ranges := [(168427522, 168427522), (168427524, 168427524)], gateway := 168427521, bits := 24, vlan := 0 }
+def pool3y : Pool := { nodeSubnets := [⟨168362240, 24⟩], ranges := [(168427524, 168427524)], gateway := 168427521, bits := 24, vlan := 0 }
+def conf3 : Conf := { pools := [pool3], nodes := [("n1", 168362245)], provider := false }
+
+/-- a reload removes the address of a deleted pod and its store delete fails (3rd apiserver call); the new incarnation
+    is bound to another address; a reload re-adds the first address and resurrects the stale object; resync -/
+def reloadDeleteFault : List Move := [
+  .scale .sts "ns1" "a" 2,
+  .createPod "ns1" "a-0" .sts "a" "" 0 [[(168427522, 168427522)]] true,
+  .listerSync true true,
+  .filter "ns1" "a-0" ["n1"] {} 0,
+  .bind "ns1" "a-0" 1 "n1" {} 0 0,
+  .deletePod "ns1" "a-0",
+  .reload [pool3y] 3,
+  .deliver 0 0 0,
+  .createPod "ns1" "a-0" .sts "a" "" 0 [[(168427524, 168427524)]] true,
+  .listerSync true true,
+  .filter "ns1" "a-0" ["n1"] {} 0,
+  .bind "ns1" "a-0" 2 "n1" {} 0 0,
+  .reload [pool3] 0,
+  .resync [168427522, 168427524] 0 0 ]
+
+def podA2'' : Pod := { ns := "ns1", name := "a-0", uid := 2, kind := .sts, app := "a", pool := "", policy := 0, ranges := [[(168427524, 168427524)]], wants := true, phase := .pending, node := "n1", handed := [⟨168427524, 24, 168427521, 0⟩] }
+
+set_option maxRecDepth 100000 in
+/-- WITHOUT the whole-key check of resync / Release (pre-fix variant) the statement fails although every side condition
+    holds: ConfigurePool ignores a failed store delete, the stale object is resurrected under the live pod's key by a
+    later reload, and resync - deciding per IP record, releasing per key - frees the live pod's address.  (Found by this
+    check on the real code; regression replay corpus/C04/reload-delete-fault.ops.) -/
+theorem per_key_release_counter :
+    allAssumed factsPerKey (init conf3) reloadDeleteFault = true ∧
+      LiveBound (run factsPerKey (init conf3) reloadDeleteFault).pods podA2'' ∧
+      Tbl.get (run factsPerKey (init conf3) reloadDeleteFault).alloc 168427524 = none := by
+  refine ⟨by decide, ⟨by decide, by decide, by decide⟩, by decide⟩
+
+set_option maxRecDepth 100000 in
+/-- with the check (regenerated facts) the same history - fault on the ConfigurePool delete included - keeps the address -/
+example : allAssumed facts (init conf3) reloadDeleteFault = true ∧
+    (Tbl.get (run facts (init conf3) reloadDeleteFault).alloc 168427524).map (fun r => (r.key, r.uid)) = some (keyOf podA2'', 2) := by
+  refine ⟨by decide, by decide⟩
 
 end Galaxy.Props.C04
